@@ -195,3 +195,13 @@ func buildC04(c *CheckCtx) {
 	c.Explain = "Proved per run: setTokenPosition gives a token the offsets ts..te and the lines GetLine yields for ts and te-1; addFreeFloatingToken appends exactly one fresh token with the given id, Value = data[ps:pe] and that position; NewLines.Append keeps the line-start table strictly increasing and GetLine returns the 1-based line of an offset against it; ungetCnt/ungetStr shrink p and te together and never below ts; pools hand out distinct cells (C18); for every grammar action a leaf node's Value is the Value of a token stored in that node (concatenations in token order). NOT proved yet: the scanner machine's own obligations (Value == data[ts:te] at exit, tiling without gaps, the new_line action recording every line start, classification of trivia) - they need the E-SCAN pass."
 	c.assume("the generated scanner machine sets tkn.Value = data[ts:te] and calls the helpers with ps == ts, pe == te (not verified yet)")
 }
+
+func init() { propBuilders["C14"] = buildC14 }
+
+func buildC14(c *CheckCtx) {
+	c.Technique = "per-kind resolver table over symbolic traces (E-TRACE) + WP contracts on the alias table functions against a specification transcribed from PHP's name-resolution rules"
+	kinds := astKinds(c.W)
+	c.checkResolverTable(kinds)
+	c.addFunctionUnits(func(con *Contract) bool { return hasProp(con, "C14") })
+	c.addFrames("C14")
+}
